@@ -49,6 +49,15 @@ func zzAccumulateCtx(accounts types.ServiceAccountState) (HostCallArgs, *types.S
 		Designate:  types.ServiceID(zzvt.U32("designator")),
 		Assign:     make(types.ServiceIDList, types.CoresCount),
 	}
+	if zzCallerAssigns {
+		// the caller is the assigner of core 0 and the authorizer queues hold data
+		ps.Assign[0] = sid
+		ps.Authorizers = make(types.AuthQueues, types.CoresCount)
+		for c := range ps.Authorizers {
+			ps.Authorizers[c] = make(types.AuthQueue, types.AuthQueueSize)
+			ps.Authorizers[c][0][0] = byte(0xA0 + c)
+		}
+	}
 	kv := zzRawPool(sid)
 	newPS := ps.DeepCopy()
 	newKV := kv.DeepCopy()
@@ -121,3 +130,7 @@ func zzRawPool(sid types.ServiceID) types.StateKeyVals {
 
 // zzWithRawPool is switched on by the harnesses that exercise the raw pool.
 var zzWithRawPool = false
+
+// zzCallerAssigns is switched on by the harnesses that exercise the privileged calls: the
+// caller is then the assigner of core 0 and the authorizer queues are populated.
+var zzCallerAssigns = false
